@@ -2,8 +2,12 @@ package index
 
 import (
 	"encoding/binary"
+	"errors"
 	"io"
+	goMath "math"
 )
+
+var MetadataTooLargeError error = errors.New("Metadata does not fit the storage format (max 65535 entries, 255 byte keys, 65535 byte values)")
 
 type Metadata map[string]string
 
@@ -14,6 +18,19 @@ func (this Metadata) bytesSize() uint64 {
 		n += len(v)
 	}
 	return uint64(n)
+}
+
+// The snapshot format stores the entry count and value lengths as uint16 and key lengths as uint8
+func (this Metadata) Validate() error {
+	if len(this) > goMath.MaxUint16 {
+		return MetadataTooLargeError
+	}
+	for k, v := range this {
+		if len(k) > goMath.MaxUint8 || len(v) > goMath.MaxUint16 {
+			return MetadataTooLargeError
+		}
+	}
+	return nil
 }
 
 func (this Metadata) save(w io.Writer) error {
